@@ -477,7 +477,11 @@ class Flow:
             oo = self.obj_off(a)
             if oo is not None:
                 if oo[0] == 0 and rel:
-                    # the object itself is released: error path; nothing of it is returned
+                    # the object itself is released (error path): whatever the callee releases of its
+                    # slots (e.g. the destroy hook run on a half-built copy) is judged against the
+                    # current slot states first; nothing of the object is returned afterwards
+                    if callee is not None:
+                        self.call_with_obj_ptr(i, st, callee, name, ai, oo, False)
                     st.dead = True
                     return
                 self.call_with_obj_ptr(i, st, callee, name, ai, oo, rel)
@@ -777,13 +781,12 @@ class Engine:
         self._helper[key] = {"final": {}, "events": []}   # recursion guard: no effect
         dst = fn.params[dst_idx]
         sn, leaves = self.leaves_of_ptr_type(dst.ty, fn.unit)
-        if not leaves:
-            # opaque (void*) destination: look for the first struct cast
-            for u in fn.uses.get(dst, []):
-                if u.op == "bitcast":
-                    sn, leaves = self.leaves_of_ptr_type(u.ty, fn.unit)
-                    if leaves:
-                        break
+        # the parameter is often an interface/base type (sqfs_object_t*, void*): use the widest struct it is cast to
+        for u in fn.uses.get(dst, []):
+            if u.op == "bitcast":
+                sn2, leaves2 = self.leaves_of_ptr_type(u.ty, fn.unit)
+                if leaves2 and (not leaves or max(l[0] + l[1] for l in leaves2) > max(l[0] + l[1] for l in leaves)):
+                    sn, leaves = sn2, leaves2
         if not leaves:
             leaves = [(0, 8, "i8*", "*")]
         src = fn.params[src_idx] if src_idx is not None else None
